@@ -8,8 +8,11 @@ import (
 	"hash/fnv"
 	"math/rand/v2"
 	"os"
+	"os/exec"
 	"path/filepath"
+	"strings"
 	"sync/atomic"
+	"syscall"
 	"time"
 
 	"github.com/goose-lang/goose/machine/async_disk"
@@ -19,7 +22,51 @@ import (
 	"verif/tlc"
 )
 
-func init() { Registry["C09"] = C09 }
+func init() {
+	Registry["C09"] = C09
+	children["c09-nostdin"] = c09NoStdinChild
+}
+
+// c09NoStdinChild: a process without standard input (a daemon; descriptor 0 is free, so the image gets it). The file
+// disk must behave like the register array all the same.
+func c09NoStdinChild(args []string) int {
+	_ = syscall.Close(0)
+	p := filepath.Join(args[0], "nostdin.img")
+	_ = os.Remove(p)
+	d, err := disk.NewFileDisk(p, 3)
+	if err != nil {
+		fmt.Println("NOSTDIN-RESULT open-error", err)
+		return 0
+	}
+	what := "ok"
+	step := func(name string, f func()) {
+		if what == "ok" && catchPanic(f) {
+			what = name + " panicked"
+		}
+	}
+	step("Write", func() { d.Write(1, pattern(7)) })
+	step("Read", func() {
+		if v := classify(d.Read(1), 8); v != 7 {
+			what = fmt.Sprintf("Read(1) after Write(1, 7) returned class %d", v)
+		}
+	})
+	step("ReadTo", func() {
+		b := bytes.Repeat([]byte{0xEE}, 4096)
+		d.ReadTo(2, b)
+		if v := classify(b, 8); v != 0 {
+			what = fmt.Sprintf("ReadTo(2) of a fresh block returned class %d", v)
+		}
+	})
+	step("Size", func() {
+		if d.Size() != 3 {
+			what = "Size() != 3"
+		}
+	})
+	step("Barrier", func() { d.Barrier() })
+	step("Close", func() { d.Close() })
+	fmt.Println("NOSTDIN-RESULT", what)
+	return 0
+}
 
 const (
 	rPANIC = -1
@@ -542,5 +589,20 @@ func C09(c *ev.Ctx) {
 	c.Set("validated_histories", nh)
 	c.Set("evaluations", replayed+nh)
 	c.Set("distinct_nontrivial", nontriv)
+	// the same in a process whose descriptor 0 is free
+	{
+		self, _ := os.Executable()
+		out, _, timedOut := runWithDeadline(exec.Command(self, "-child", "c09-nostdin", imgDir), 60*time.Second)
+		switch {
+		case timedOut:
+			c.Violation("file-disk-without-stdin", "a process that closed its standard input: the file disk driver never finished\n"+firstLines(out, 10), nil)
+		case strings.Contains(out, "NOSTDIN-RESULT ok"):
+			c.Set("process_without_stdin", "ok")
+		case strings.Contains(out, "NOSTDIN-RESULT open-error"):
+			c.Set("process_without_stdin", "NewFileDisk returned an error: "+firstLines(out, 1))
+		default:
+			c.Violation("file-disk-without-stdin", "a process that closed its standard input before opening the disk (the image gets descriptor 0): the file disk does not behave like the in-memory disk: "+firstLines(out, 6), nil)
+		}
+	}
 	c.Set("rule", "distinct operation histories (hash of the op/address/reply sequence) that contain a successful write later read back at the same address; generated by TLC simulation of Disk.tla (replayed on 6 targets) and by the seeded Go driver (validated by DiskTrace.tla)")
 }
